@@ -302,6 +302,18 @@ NameSlots == {
   NameSlot("ident:assert", "assert ", ", \"m\";", "vBit", "nope%"),
   NameSlot("include", "include \"", "\"", "lib.td", "nope%.td") }
 
+(* shadowing: an inner declaration (template argument, field, multiclass argument, foreach iterator) hides an outer defvar of the  *)
+(* same name; the use has the type of the INNER declaration                                                                     *)
+LitOf(t) == IF t = T("int") THEN "1" ELSE "\"s\""
+ShadowKinds == {
+  [k |-> "class-targ",  pre |-> "class K%<@I sh%> { @F v = ", post |-> "; }"],
+  [k |-> "class-field", pre |-> "class K% { @I sh% = @L; @F v = ", post |-> "; }"],
+  [k |-> "def-field",   pre |-> "def D% { @I sh% = @L; @F v = ", post |-> "; }"],
+  [k |-> "mc-targ",     pre |-> "multiclass N%<@I sh%> { def _d { @F v = ", post |-> "; } }"] }
+ShadowCases == {[k |-> sk.k, pre |-> sk.pre, post |-> sk.post, outer |-> TyTxt(to), outerlit |-> LitOf(to), inner |-> TyTxt(ti), innerlit |-> LitOf(ti),
+                 field |-> TyTxt(tf), c |-> Cast(ti, tf)] :
+                  sk \in ShadowKinds, to \in {T("int"), T("string")}, ti \in {T("int"), T("string")}, tf \in {T("int"), T("string")}}
+
 (* syntax faults: one structural token deleted, or one stray closer inserted, in any statement *)
 Deletable == {";", "{", "}", "=", "<", ">", "(", ")", "[", "]", ",", "in", ":", "then"}
 Insertable == {")", "]", "}"}
@@ -352,6 +364,7 @@ Next == /\ ~done
                 /\ \A b \in BindCases : PrintT("@@" \o ToJson([k |-> "bind"] @@ b))
                 /\ \A ns \in NameSlots : PrintT("@@" \o ToJson([k |-> "name"] @@ ns))
                 /\ PrintT("@@" \o ToJson([k |-> "syntax", deletable |-> Deletable, insertable |-> Insertable]))
+                /\ \A sc \in ShadowCases : PrintT("@@" \o ToJson([kk |-> "shadow"] @@ sc))
                 /\ \A tr \in Triples : PrintT("@@" \o ToJson([k |-> "triple", s |-> tr[1].s, t |-> TyTxt(tr[2]),
                                                                v |-> tr[3].txt, vk |-> tr[3].k, vt |-> TyTxt(tr[3].ty), c |-> Decide(tr[1], tr[2], tr[3])]))
                 /\ \A f \in ArityFaults : PrintT("@@" \o ToJson([k |-> "arity", op |-> f.op, how |-> f.how, txt |-> f.txt]))
